@@ -137,7 +137,7 @@ def _job(args):
                 out["samples"].append(dict(dirs=[scan.dotted(d) for d in dirs], files=[scan.dotted(f) for f in files]))
         finally:
             scan.cleanup(base)
-    return out
+    return common.tag_job(out, __name__, "_job", list(args))
 
 
 def run(ctx: Ctx):
